@@ -185,7 +185,11 @@ def eval_C04(item):
     if st.iobs is None:
         return res
     if own_hier(st.iobs) != own_hier(st.mobs):
-        res['corr'].append('hierarchy (own pixels, parent): impl %r model %r' % (own_hier(st.iobs), own_hier(st.mobs)))
+        msg = 'hierarchy (own pixels, parent): impl %r model %r' % (own_hier(st.iobs), own_hier(st.mobs))
+        res['corr'].append(msg)
+        # the model *is* the documented construction run on the same recorded order, so for C04 a
+        # disagreement is a failing input of the property itself
+        res['pred'].append('differs from the documented construction on the recorded order: ' + msg)
     # the hypotheses are themselves clauses of C04
     res['pred'] += res['hyp']
     return res
